@@ -107,6 +107,10 @@ theorem USZ_eq : USZ = 2 ^ 64 := by decide
 @[inline] def checkedMul (a b : Nat) : Option Nat :=
   if a * b < USZ then some (a * b) else none
 
+/-- `u64 → usize` `try_into()?` on the modelled 64-bit target: fails only for values no `u64` holds. -/
+@[inline] def tryIntoUsize (v : Nat) : Out Nat :=
+  if v < USZ then .ok v else .err .TryFromIntError
+
 /-- Unchecked `a + b` on `usize` compiled with overflow checks. -/
 @[inline] def uadd (a b : Nat) : Out Nat :=
   if a + b < USZ then .ok (a + b) else .panic
